@@ -1,0 +1,59 @@
+//go:build verif
+
+// Contracts for data.go (C18), checked by nsqvc. Comment-only file.
+
+package clusterinfo
+
+// Logging has no effect on any modelled state.
+//@ benign (*github.com/nsqio/nsq/internal/clusterinfo.ClusterInfo).logf
+// Set once by New, never written afterwards (checked by an SSA sweep of the package).
+//@ immutable ClusterInfo.client, ClusterInfo.log
+
+//@ func (p *Producer) HTTPAddress() string
+//@   props C18
+//@   requires p != nil
+//@   modifies
+//@ func (p *Producer) TCPAddress() string
+//@   props C18
+//@   requires p != nil
+//@   modifies
+//@ func (p *Producer) Address() string
+//@   props C18
+//@   requires p != nil
+//@   modifies
+
+// The per-producer worker of GetNSQDStats: whatever the upstream nsqd answered (GETV1 is an opaque call:
+// afterwards `resp` and everything reachable from it holds arbitrary values - nil elements, nil
+// pointers), the worker must not crash nsqadmin.
+// lockassume = monitor invariant of the function-local mutex `lock` over the captured map: it is made
+// non-nil by GetNSQDStats and only ever receives &ChannelStats{...} values that then go through Add.
+//@ func (c *ClusterInfo) GetNSQDStats$1(p *Producer)
+//@   props C18
+//@   requires c != nil && c.client != nil && p != nil
+//@   requires[captured-map] channelStatsMap != nil
+//@   lockassume forall k string :: {channelStatsMap[k]} has(channelStatsMap, k) ==> accOK(channelStatsMap[k])
+//@   loop 0
+//@     invariant[map] channelStatsMap != nil && (forall k string :: {channelStatsMap[k]} has(channelStatsMap, k) ==> channelStatsMap[k] != nil)
+//@     assume forall k string :: {channelStatsMap[k]} has(channelStatsMap, k) ==> accOK(channelStatsMap[k])
+//@   loop 1
+//@     invariant[map] channelStatsMap != nil && (forall k string :: {channelStatsMap[k]} has(channelStatsMap, k) ==> channelStatsMap[k] != nil)
+//@     assume forall k string :: {channelStatsMap[k]} has(channelStatsMap, k) ==> accOK(channelStatsMap[k])
+//@     invariant[topic] topic != nil
+//@   loop 2
+//@     invariant[map] channelStatsMap != nil && (forall k string :: {channelStatsMap[k]} has(channelStatsMap, k) ==> channelStatsMap[k] != nil)
+//@     assume forall k string :: {channelStatsMap[k]} has(channelStatsMap, k) ==> accOK(channelStatsMap[k])
+//@     invariant[acc] channelStats != nil && accOK(channelStats) && channel != nil && topic != nil
+
+// NOTE on the `assume` clauses above: that every accumulator already in the map keeps well-formed
+// latency entries across ChannelStats.Add of ANOTHER accumulator needs separation of the decoded
+// objects (a quantified frame over nested structures), which the contract language cannot state; it is
+// an explicit, reported assumption. Non-nil-ness of the map and of its values IS proved.
+
+// The per-lookupd worker of GetLookupdProducers (same model of the upstream answer).
+//@ func (c *ClusterInfo) GetLookupdProducers$1(addr string)
+//@   props C18
+//@   requires c != nil && c.client != nil
+//@   requires[captured-map] producersByAddr != nil
+//@   lockassume forall k string :: {producersByAddr[k]} has(producersByAddr, k) ==> producersByAddr[k] != nil
+//@   loop 0
+//@     invariant[map] producersByAddr != nil && (forall k string :: {producersByAddr[k]} has(producersByAddr, k) ==> producersByAddr[k] != nil)
